@@ -35,10 +35,19 @@ pub fn len_lattice(t: Tid, lmax: usize) -> Vec<usize> {
 pub enum LenSel {
     Lattice(u8),
     Uniform(u16),
+    /// thousands of bits (unbounded types only; a fixed type falls back to its lattice)
+    Huge(u8),
 }
 
+/// Lengths far beyond the routine range, around powers of two and one odd size.
+pub const HUGE_LENS: [usize; 13] = [1023, 1024, 1025, 1343, 2047, 2048, 2049, 2500, 4095, 4096, 4097, 6000, 8193];
+
 pub fn arb_len_sel() -> impl Strategy<Value = LenSel> {
-    prop_oneof![any::<u8>().prop_map(LenSel::Lattice), any::<u16>().prop_map(LenSel::Uniform),]
+    prop_oneof![
+        10 => any::<u8>().prop_map(LenSel::Lattice),
+        10 => any::<u16>().prop_map(LenSel::Uniform),
+        1 => any::<u8>().prop_map(LenSel::Huge),
+    ]
 }
 
 pub fn frac(f: u16, n_choices: usize) -> usize {
@@ -53,6 +62,14 @@ pub fn realize_len(sel: &LenSel, t: Tid, lmax: usize) -> usize {
             l[((*i as usize) * l.len()) >> 8]
         }
         LenSel::Uniform(f) => frac(*f, fixed_cap(t).unwrap_or(lmax) + 1),
+        LenSel::Huge(i) => {
+            if fixed_cap(t).is_some() {
+                let l = len_lattice(t, lmax);
+                l[((*i as usize) * l.len()) >> 8]
+            } else {
+                HUGE_LENS[((*i as usize) * HUGE_LENS.len()) >> 8]
+            }
+        }
     }
 }
 
@@ -195,7 +212,7 @@ pub fn arb_prov() -> impl Strategy<Value = Prov> {
         1 => Just(Prov::Pushed),
         1 => Just(Prov::Collected),
         2 => (0..NT).prop_map(Prov::Via),
-        3 => prop_oneof![Just(1u16), Just(63), Just(64), Just(65), Just(200), 0u16..2000].prop_map(Prov::Spare),
+        3 => prop_oneof![Just(1u16), Just(63), Just(64), Just(65), Just(200), Just(4200), Just(9000), 0u16..2000].prop_map(Prov::Spare),
         3 => prop_oneof![Just(1u16), Just(64), Just(129), Just(200), 1u16..400].prop_map(Prov::LongThenTrunc),
         1 => Just(Prov::NotNot),
         1 => any::<u16>().prop_map(Prov::RotRound),
@@ -212,7 +229,7 @@ pub fn arb_prov() -> impl Strategy<Value = Prov> {
 /// Zoo type index; the two unbounded types are drawn three times as often as each fixed shape.
 pub fn arb_tid() -> impl Strategy<Value = Tid> {
     prop_oneof![
-        17 => (0usize..17).prop_map(|i| FIXED_TIDS[i]),
+        18 => (0usize..18).prop_map(|i| FIXED_TIDS[i]),
         3 => Just(TID_D),
         3 => Just(TID_A),
     ]
